@@ -565,3 +565,65 @@ func VerifC45_raw_sessionState() {
 	}
 	vrt.Assert(true, "C45/raw-sessionState-nopanic")
 }
+
+// ---------------------------------------------------------------------------------------------
+// (c) focused shapes that the general harnesses above do not reach within the quick bounds
+
+// VerifC45_rt_clientHello_sni_long: round trip of a ClientHello whose server name is 252..256 octets
+// long (the lengths around the point where server_name_list length = name length + 3 needs its
+// high-order octet; 253 is the longest textual DNS name). First and last octet symbolic, the rest 'a'.
+func VerifC45_rt_clientHello_sni_long() {
+	lens := []int{252, 253, 254, 255, 256}
+	n := lens[vrt.Choose("snilen", len(lens))]
+	b := make([]byte, n)
+	for i := range b {
+		b[i] = 'a'
+	}
+	b[0] = vrt.Byte("first")
+	b[n-1] = vrt.Byte("last")
+	m := &clientHelloMsg{}
+	m.vers = vrt.U16("vers")
+	m.random = make([]byte, 32)
+	m.cipherSuites = u16sC45(1)
+	m.compressionMethods = []byte{0}
+	m.serverName = string(b)
+	if flagC45() {
+		m.ocspStapling = true // an extension after server_name
+	}
+	raw := m.marshal()
+	m2 := &clientHelloMsg{}
+	ok := m2.unmarshal(raw)
+	vrt.Assert(ok, "C45/clientHello-parses")
+	if !ok {
+		return
+	}
+	vrt.Assert(len(m2.serverName) == n, "C45/clientHello-sni-long")
+	vrt.Assert(eqStrC45(m2.serverName, m.serverName), "C45/clientHello-sni-long")
+	vrt.Assert(m2.ocspStapling == m.ocspStapling, "C45/clientHello-ocsp")
+	vrt.Assert(m2.vers == m.vers && eqU16sC45(m2.cipherSuites, m.cipherSuites), "C45/clientHello-suites")
+}
+
+// VerifC45_raw_clientHello_ext: the extension area of a ClientHello on arbitrary bytes. The part in
+// front of it is the shortest well-formed one (empty session id, one symbolic suite, one compression
+// method: 45 octets), followed by 0..X fully symbolic octets (extensions length, then extension
+// headers and bodies of any type and any declared length). The buffer's capacity equals its length,
+// so a slice expression that reaches past the end of the message is a Go panic. Oracle: no panic.
+func VerifC45_raw_clientHello_ext() {
+	X := vrt.Param("X", 10)
+	e := vrt.Range("extlen", 0, X)
+	buf := make([]byte, 45+e)
+	copy(buf[4:6], vrt.Bytes("vers", 2))
+	buf[38] = 0 // session id length
+	buf[39], buf[40] = 0, 2
+	copy(buf[41:43], vrt.Bytes("suite", 2))
+	buf[43], buf[44] = 1, 0
+	copy(buf[45:], vrt.Bytes("ext", e))
+	m := &clientHelloMsg{}
+	ok := m.unmarshal(buf)
+	vrt.Cover("C45/raw-clientHello-ext-returned")
+	if ok {
+		vrt.Cover("C45/raw-clientHello-ext-accepted")
+		vrt.Assert(len(m.serverName) <= e, "C45/raw-clientHello-ext-sni-inside")
+	}
+	vrt.Assert(true, "C45/raw-clientHello-ext-nopanic")
+}
